@@ -1,0 +1,128 @@
+//go:build verif
+
+package jsonapi
+
+// Contracts for schema editing and queries (C14, C15, C12).
+
+//@ spec hasType(s *Schema, n string) = exists i int :: 0 <= i && i < len(s.Types) && s.Types[i].Name == n
+//@ spec uniqueNames(s *Schema) = forall i int, j int :: 0 <= i && i < j && j < len(s.Types) ==> s.Types[i].Name != s.Types[j].Name
+//@ spec allTypesWf(s *Schema) = forall i int :: 0 <= i && i < len(s.Types) ==> typeWf(s.Types[i])
+// separateMaps: two types never share a relationship map or an attribute map
+// (sharing one would let an edit of one type change the other).
+//@ spec separateMaps(s *Schema) = forall i int, j int :: 0 <= i && i < j && j < len(s.Types) ==> (s.Types[i].Rels == nil || s.Types[i].Rels != s.Types[j].Rels) && (s.Types[i].Attrs == nil || s.Types[i].Attrs != s.Types[j].Attrs)
+//@ spec schemaWf(s *Schema) = s != nil && allTypesWf(s) && uniqueNames(s) && separateMaps(s)
+
+// typesSame: the list of types (header and every element) and every map reachable from it is as at entry.
+//@ spec typesSame(s *Schema) = s.Types == old(s.Types) && (forall i int :: 0 <= i && i < len(s.Types) ==> s.Types[i] == old(s.Types[i]) && sameMap(s.Types[i].Attrs) && sameMap(s.Types[i].Rels))
+
+//@ func Schema.HasType
+//@ props C14 C15 C12
+//@ requires nonnil: s != nil
+//@ ensures sem: result == hasType(s, name)
+//@ loop 0 invariant none-so-far: forall k int :: 0 <= k && k <= $idx ==> s.Types[k].Name != name
+
+//@ func Schema.GetType
+//@ props C14 C15 C12
+//@ requires nonnil: s != nil
+//@ ensures found: forall i int :: 0 <= i && i < len(s.Types) && s.Types[i].Name == name && (forall j int :: 0 <= j && j < i ==> s.Types[j].Name != name) ==> result == s.Types[i]
+//@ ensures missing: !hasType(s, name) ==> result == zero(type[Type])
+//@ ensures named: hasType(s, name) ==> result.Name == name
+//@ loop 0 invariant none-so-far: forall k int :: 0 <= k && k <= $idx ==> s.Types[k].Name != name
+
+//@ func Schema.AddType
+//@ flag absolute-quantifiers
+//@ props C14
+//@ requires wf: schemaWf(s)
+//@ requires arg-wf: typ.Name != "" ==> typeWf(typ)
+//@ requires arg-separate: forall i int :: 0 <= i && i < len(s.Types) ==> (typ.Rels == nil || typ.Rels != s.Types[i].Rels) && (typ.Attrs == nil || typ.Attrs != s.Types[i].Attrs)
+//@ modifies obj[Schema](s), spare[Type](s.Types), new[Type]
+//@ ensures accept: (result == nil) == (typ.Name != "" && !old(hasType(s, typ.Name)))
+//@ ensures unchanged-on-error: result != nil ==> typesSame(s)
+//@ ensures appended: result == nil ==> len(s.Types) == old(len(s.Types)) + 1 && s.Types[old(len(s.Types))] == typ
+//@ ensures prefix: result == nil ==> (forall i int :: 0 <= i && i < old(len(s.Types)) ==> s.Types[i] == old(s.Types[i]))
+//@ ensures wf: schemaWf(s)
+//@ loop 0 invariant none-so-far: forall k int :: 0 <= k && k <= $idx ==> s.Types[k].Name != typ.Name
+
+//@ func Schema.RemoveType
+//@ flag absolute-quantifiers
+//@ props C14
+//@ requires wf: schemaWf(s)
+//@ modifies obj[Schema](s), elems[Type](s.Types)
+//@ ensures removed: !hasType(s, typ)
+//@ ensures absent-noop: !old(hasType(s, typ)) ==> typesSame(s)
+//@ ensures wf: schemaWf(s)
+//@ ensures length: old(hasType(s, typ)) ==> len(s.Types) == old(len(s.Types)) - 1
+//@ ensures before: forall i int, j int :: 0 <= i && i < old(len(s.Types)) && old(s.Types[i].Name) == typ && 0 <= j && j < i ==> s.Types[j] == old(s.Types[j])
+//@ ensures after: forall i int, j int :: 0 <= i && i < old(len(s.Types)) && old(s.Types[i].Name) == typ && i <= j && j < len(s.Types) ==> s.Types[j] == old(s.Types[j + 1])
+//@ loop 0 invariant none-so-far: forall k int :: 0 <= k && k <= $idx ==> s.Types[k].Name != typ
+
+//@ func Schema.AddAttr
+//@ props C14
+//@ requires wf: schemaWf(s)
+//@ modifies heap[Type], maps[map[string]Attr]
+//@ ensures missing: !old(hasType(s, typ)) ==> result != nil
+//@ ensures accept: forall i int :: 0 <= i && i < old(len(s.Types)) && old(s.Types[i].Name) == typ ==> (result == nil) == (attr.Name != "" && validKind(attr.Type) && !(attr.Name in old(mapdom(s.Types[i].Attrs))))
+//@ ensures unchanged-on-error: result != nil ==> typesSame(s)
+//@ ensures added: result == nil ==> (forall i int :: 0 <= i && i < len(s.Types) && s.Types[i].Name == typ ==> attr.Name in s.Types[i].Attrs && s.Types[i].Attrs[attr.Name] == attr)
+//@ ensures header: s.Types == old(s.Types)
+//@ ensures names: forall i int :: 0 <= i && i < len(s.Types) ==> s.Types[i].Name == old(s.Types[i].Name) && s.Types[i].Rels == old(s.Types[i].Rels)
+//@ ensures wf: schemaWf(s)
+//@ loop 0 invariant none-so-far: forall k int :: 0 <= k && k <= $idx ==> s.Types[k].Name != typ
+
+//@ func Schema.RemoveAttr
+//@ props C14
+//@ requires wf: schemaWf(s)
+//@ modifies maps[map[string]Attr]
+//@ ensures removed: forall i int :: 0 <= i && i < len(s.Types) && s.Types[i].Name == typ ==> !(attr in s.Types[i].Attrs)
+//@ ensures absent-noop: !hasType(s, typ) ==> typesSame(s)
+//@ ensures wf: schemaWf(s)
+//@ loop 0 invariant wf: allTypesWf(s)
+//@ loop 0 invariant done: forall k int :: 0 <= k && k <= $idx && s.Types[k].Name == typ ==> !(attr in s.Types[k].Attrs)
+//@ loop 0 invariant untouched: (forall k int :: 0 <= k && k <= $idx ==> s.Types[k].Name != typ) ==> typesSame(s)
+
+//@ func Schema.AddRel
+//@ props C14
+//@ requires wf: schemaWf(s)
+//@ modifies heap[Type], maps[map[string]Rel]
+//@ ensures missing: !old(hasType(s, typ)) ==> result != nil
+//@ ensures accept: forall i int :: 0 <= i && i < old(len(s.Types)) && old(s.Types[i].Name) == typ ==> (result == nil) == (rel.FromName != "" && rel.ToType != "" && !(rel.FromName in old(mapdom(s.Types[i].Rels))))
+//@ ensures unchanged-on-error: result != nil ==> typesSame(s)
+//@ ensures added: result == nil ==> (forall i int :: 0 <= i && i < len(s.Types) && s.Types[i].Name == typ ==> rel.FromName in s.Types[i].Rels && s.Types[i].Rels[rel.FromName] == rel)
+//@ ensures header: s.Types == old(s.Types)
+//@ ensures names: forall i int :: 0 <= i && i < len(s.Types) ==> s.Types[i].Name == old(s.Types[i].Name) && s.Types[i].Attrs == old(s.Types[i].Attrs)
+//@ ensures wf: schemaWf(s)
+//@ loop 0 invariant none-so-far: forall k int :: 0 <= k && k <= $idx ==> s.Types[k].Name != typ
+
+//@ func Schema.RemoveRel
+//@ props C14
+//@ requires wf: schemaWf(s)
+//@ modifies maps[map[string]Rel]
+//@ ensures removed: forall i int :: 0 <= i && i < len(s.Types) && s.Types[i].Name == typ ==> !(rel in s.Types[i].Rels)
+//@ ensures absent-noop: !hasType(s, typ) ==> typesSame(s)
+//@ ensures wf: schemaWf(s)
+//@ loop 0 invariant wf: allTypesWf(s)
+//@ loop 0 invariant done: forall k int :: 0 <= k && k <= $idx && s.Types[k].Name == typ ==> !(rel in s.Types[k].Rels)
+//@ loop 0 invariant untouched: (forall k int :: 0 <= k && k <= $idx ==> s.Types[k].Name != typ) ==> typesSame(s)
+
+// relFree: relationship name n is free in every type named tn; holdsRel: every type named tn holds r under n.
+//@ spec relFree(s *Schema, tn string, n string) = forall i int :: 0 <= i && i < len(s.Types) && s.Types[i].Name == tn ==> !(n in s.Types[i].Rels)
+//@ spec holdsRel(s *Schema, tn string, n string, r Rel) = forall i int :: 0 <= i && i < len(s.Types) && s.Types[i].Name == tn ==> n in s.Types[i].Rels && s.Types[i].Rels[n] == r
+
+//@ func Schema.AddTwoWayRel
+//@ flag absolute-quantifiers
+//@ props C14
+//@ requires wf: schemaWf(s)
+//@ requires two-way: rel.FromName != "" && rel.ToName != "" && rel.FromType != "" && rel.ToType != ""
+//@ requires not-self-inverse: !(rel.FromType == rel.ToType && rel.FromName == rel.ToName)
+//@ modifies heap[Type], maps[map[string]Rel]
+//@ ensures succeeds: old(hasType(s, rel.FromType) && hasType(s, rel.ToType) && relFree(s, rel.FromType, rel.FromName) && relFree(s, rel.ToType, rel.ToName)) ==> result == nil
+//@ ensures unchanged-on-error: result != nil ==> typesSame(s)
+//@ ensures holds-from-kept: result == nil && relBefore(rel) ==> holdsRel(s, rel.FromType, rel.FromName, rel)
+//@ ensures holds-from-inverted: result == nil && !relBefore(rel) ==> holdsRel(s, rel.FromType, rel.FromName, rel)
+//@ ensures holds-to-kept: result == nil && relBefore(rel) ==> holdsRel(s, rel.ToType, rel.ToName, relInv(rel))
+//@ ensures holds-to-inverted: result == nil && !relBefore(rel) ==> holdsRel(s, rel.ToType, rel.ToName, relInv(rel))
+//@ ensures wf: schemaWf(s)
+//@ loop 0 invariant typ1-found: typ1 != nil ==> (exists k int :: 0 <= k && k <= $idx && typ1 == addrOf(s.Types, k) && s.Types[k].Name == rel1.FromType)
+//@ loop 0 invariant typ1-missing: typ1 == nil ==> (forall k int :: 0 <= k && k <= $idx ==> s.Types[k].Name != rel1.FromType)
+//@ loop 0 invariant typ2-found: typ2 != nil ==> (exists k int :: 0 <= k && k <= $idx && typ2 == addrOf(s.Types, k) && s.Types[k].Name == rel2.FromType)
+//@ loop 0 invariant typ2-missing: typ2 == nil ==> (forall k int :: 0 <= k && k <= $idx ==> s.Types[k].Name != rel2.FromType)
